@@ -28,10 +28,16 @@ impl<'a> G<'a> {
     format!("{}{}", pre, self.n)
   }
   fn cond(&mut self) -> String {
-    match self.rng.below(12) {
+    match self.rng.below(14) {
       0 => {
         self.feats.push("cond-true");
         "true".into()
+      }
+      // always true, but evaluating it may throw (repair 6c50480): the loop is not endless for the analyzer
+      12 | 13 => {
+        self.feats.push("cond-true-impure");
+        ["f() || true", "(f(), true)", "[f()]", "(x = 1)", "(x = {})", "!f() || 1", "({ a: f() })", "true || f()", "new C() || true", "(x.y, 1)", "tag`t` || true"]
+          [self.rng.below(11)].into()
       }
       1 => "1".into(),
       2 => "false".into(),
